@@ -14,13 +14,12 @@
    order test, division, and the contents of ISA-undefined lanes are arbitrary).  ui16 instructions: over the
    integers (ZOps), every lane in 0..65535.
 
-   To FLIP an instruction after x86.py is repaired (e.g. avx2_mask_storeu_ps):  in Proofs.v add
-       Lemma okS_<I> : instr_ok R o lane_any instr_<I>.  Proof. solve_instr instr_<I>. Qed.   (inside Section Float)
-       Lemma ok_<I> : forall R (o : ROps R), ring_ok o -> instr_ok R o lane_any instr_<I>.  Proof. lift okS_<I>. Qed.
-   delete refuted_<I>/partial_<I> (they stop compiling, which is the signal), and replace the two theorems
-   C14_<I>_refuted / C14_<I>_partial below by
-       Theorem C14_<I> : forall R (o : ROps R), ring_ok o -> instr_ok R o lane_any instr_<I>.
-       Proof. exact ok_<I>. Qed. *)
+   To FLIP an instruction <I> after x86.py is repaired (e.g. avx2_mask_storeu_ps): in Proofs.v, inside Section
+   Float, add     Lemma okS_<I> : instr_ok R o lane_any instr_<I>.  Proof. solve_instr instr_<I>. Qed.
+   and after it   Lemma ok_<I> : forall R (o : ROps R), ring_ok o -> instr_ok R o lane_any instr_<I>.  Proof. lift okS_<I>. Qed.
+   delete refuted_<I> / partial_<I> (they stop compiling, which is the signal) and replace the pair
+   C14_<I>_refuted / C14_<I>_partial below by the full-strength statement
+     "C14_<I> : forall R (o : ROps R), ring_ok o -> instr_ok R o lane_any instr_<I>"   proved by   exact ok_<I>. *)
 From Coq Require Import ZArith List String.
 From X86 Require Import Model Spec Gen_X86Instrs Proofs ProofsZ.
 Import ListNotations.
